@@ -65,6 +65,19 @@ class AbsRange(Abstract):
     def loop_end(self) -> None:
         self.sink.end(("REPEAT", _x(self.count)))
 
+    def __iter__(self) -> Any:
+        """walked by hand (iter() / next() / a comprehension) instead of by a `for` statement: one run per count, the count
+        decided by comparing it with 0, 1, 2 ... (the facts assumed before - e.g. count <= capacity - end the questions)"""
+        i = 0
+        while True:
+            more = (self.count > i) if isinstance(self.count, AbsInt) else (self.count > i)
+            if not more:
+                return
+            yield i
+            i += 1
+            if i > 4096:
+                raise Unfoldable("an abstract count is enumerated without a known bound")
+
 
 def _x(v: Any) -> Any:
     return v.expr if isinstance(v, (AbsInt, AbsBool)) else v
@@ -302,7 +315,7 @@ def codec_hook(ctx: Ctx, sink: Sink, enter: Callable[[str, List[Any]], bool], ch
             if isinstance(v, AbsInt):
                 return AbsRange(sink, v)
             return NotImplemented
-        if name == "bytes" and len(e.args) == 1:
+        if name in ("bytes", "bytearray") and len(e.args) == 1:
             v = f.fold(e.args[0])
             if isinstance(v, (Abstract,)):
                 return v
@@ -310,7 +323,7 @@ def codec_hook(ctx: Ctx, sink: Sink, enter: Callable[[str, List[Any]], bool], ch
                 return list(v)  # bytes built from values read off the wire
             if isinstance(v, (list, tuple, bytes, bytearray)):
                 try:
-                    return bytes(v)
+                    return bytes(v) if name == "bytes" else bytearray(v)
                 except (ValueError, TypeError) as ex:
                     raise Raised(type(ex).__name__, e)
             return NotImplemented
@@ -356,6 +369,11 @@ def codec_hook(ctx: Ctx, sink: Sink, enter: Callable[[str, List[Any]], bool], ch
                 return getattr(_m, name.split(".")[1])(*vals)
             return NotImplemented
         fn = mod.functions.get(last) if isinstance(e.func, ast.Name) else None
+        if fn is None and isinstance(e.func, ast.Name) and last not in f.env:
+            # a codec function that lives in a satellite module of the codec and is imported under its name
+            r_ = ctx.repo.module_member((f.mod or mod).name, last)
+            if type(r_).__name__ == "FuncInfo" and r_.cls is None and r_.module.name in ctx.repo.with_satellites(["_serdes"]):
+                fn = r_
         if fn is None:
             return NotImplemented
         args = [f.fold(a) for a in e.args]
